@@ -75,4 +75,18 @@ def handle : Handler := fun op toks =>
       if d % 2 = 1 ∧ u.length ≥ 1 then some [natTok (modexact_1c_odd u d c)] else none
   | op, toks => (limbs? toks).bind (handleWords op)
 
+/-- predicate ops: the property itself is evaluated on the implementation's output (used so that a wrong
+    `modlimb_invert_table` entry, which the regenerated model would faithfully reproduce, still yields a failing input) -/
+def pred : PredHandler := fun op toks impl =>
+  match op, toks, impl with
+  | "modlimb_invert_ok", [.num n], [.num inv] =>
+      if n.toNat % 2 = 1 ∧ 0 ≤ inv ∧ inv < (B : Int) then
+        some (if n.toNat * inv.toNat % B = 1 then none else some "n*inv mod 2^64 != 1")
+      else none
+  | "mpn_divexact_1_ok", [.vec u, .num d], [.vec q] =>
+      if 0 < d ∧ d < (B : Int) ∧ u.length ≥ 1 ∧ val u % d.toNat = 0 then
+        some (if val q * d.toNat = val u ∧ q.length = u.length then none else some "quotient*d != dividend")
+      else none
+  | _, _, _ => none
+
 end Mpir.Ops.DivWord
